@@ -346,10 +346,9 @@ func AddStructType(currentNodeName string, x *ast.StructType, currentFile *core_
 
 	var ioproperties []core_domain.CodeProperty
 	var calls []core_domain.CodeCall
-	for _, field := range x.Fields.List {
-		property := BuildPropertyField(getFieldName(field), field)
-		member.FileID = currentFile.FullName
-		ioproperties = append(ioproperties, *property)
+	member.FileID = currentFile.FullName
+	for _, property := range BuildFieldToProperty(x.Fields.List) {
+		ioproperties = append(ioproperties, property)
 
 		call := core_domain.CodeCall{
 			Package:  getPackageName(property.TypeValue, "", currentFile.Imports),
